@@ -17,7 +17,7 @@ use std::cell::RefCell;
 use std::rc::Rc;
 
 /// Kinds of history replayed for every corpus entry.
-pub const KINDS: [&str; 5] = ["enumerate+reask", "solve_all+solve", "two-queries", "parse-and-solve", "timer"];
+pub const KINDS: [&str; 6] = ["enumerate+reask", "solve_all+solve", "two-queries", "parse-and-solve", "timer", "load-file"];
 
 fn features(with_cut: bool) -> Features { Features { cut: with_cut, not: true, output: false, anon: true, alias_heavy: false } }
 
@@ -157,6 +157,34 @@ pub fn replay_entry(e: &Value) -> Result<String, String> {
                           Err(m) => return Err(m) }
                 // parsers on odd input
                 let _ = guarded(u64::MAX, || { let _ = suiron::parse_rule("p($X) :- (a, b; c), not(d($X)), $X = [1, 2 | $T]."); let _ = suiron::parse_term("f(\\"); let _ = suiron::generate_goal("(a, (b; c)), d"); let _ = suiron::parse_query("q($X, [a | $_])."); });
+            }
+        }
+        "load-file" => {
+            // the program written to a file (one rule per line, a comment, a rule split over two lines), loaded and solved
+            if crate::props::solver::text_presentable(&p) {
+                let mut text = String::from("# generated\n");
+                for c in &p.clauses {
+                    let t = render::clause(c, &render::CANON);
+                    match t.find(":- ") { Some(i) if t.len() % 2 == 0 => { text.push_str(&t[..i + 2]); text.push_str("\n    "); text.push_str(&t[i + 3..]); } _ => text.push_str(&t) }
+                    text.push_str("   % c\n");
+                }
+                let dir = format!("{}/work/tmp", std::env::var("VERIF_DIR").unwrap_or_else(|_| "/verif".into()));
+                let _ = std::fs::create_dir_all(&dir);
+                let path = format!("{}/c24-{}.txt", dir, std::process::id());
+                std::fs::write(&path, &text).map_err(|e| format!("cannot write {}: {}", path, e))?;
+                let r = guarded(u64::MAX, || {
+                    suiron::start_query();
+                    let mut kb = suiron::KnowledgeBase::new();
+                    if let Some(err) = suiron::load_kb_from_file(&mut kb, &path) { return Err(err); }
+                    let _ = suiron::load_kb_from_file(&mut suiron::KnowledgeBase::new(), "/nonexistent/file.txt");
+                    let _ = suiron::format_kb(&kb);
+                    let sn = suiron::make_base_node(Rc::new(query_goal(&p)), &kb);
+                    let mut n = 0;
+                    while suiron::next_solution(Rc::clone(&sn)).is_some() { n += 1; if n > 20 { break; } }
+                    Ok(n)
+                }).map_err(|f| format!("{:?}", f))?;
+                match r { Ok(n) => { if n != expected { return Err(format!("loaded program found {} answers, expected {}", n, expected)); } did.push_str("; written to a file, loaded with load_kb_from_file and solved"); }
+                          Err(m) => return Err(format!("load_kb_from_file rejected the generated file: {}", m)) }
             }
         }
         "timer" => {
